@@ -96,6 +96,18 @@ def run(ctx):
                 meta.append({"route": f"{m} {p}", "handler": h, "url": url, "rep": rep, "changed_tables": o.changed_tables,
                              "exception": (type(o.exc).__name__ + ": " + str(o.exc)[:160]) if o.exc is not None else None,
                              "location": str(o.location) if o.location else None, "unsupported_sql": bool(o.unsupported)})
+                if cls == "list_batches" and rep == "plain" and rq["variant"] == "all":
+                    # the same listing under every search term of the route's query language: a search never widens what may be seen
+                    for ti in range(max(len(_acl.Q_V1_ALL), len(_acl.Q_V2_ALL))):
+                        url2, data2, ctype2, hdrs2 = _acl.concrete(m, p, cls, rq["world"], rq["target"], rq["variant"], f"term:{ti}", ctx.seed)
+                        W.restore()
+                        o2 = W.call(m, url2, data2, rq["caller"], ctype2, hdrs2)
+                        mode2, seen2, fuser2 = W.listing_observation(o2)
+                        cases.append({"cls": cls, "caller": rq["caller"], "world": rq["world"], "target": rq["target"], "variant": rq["variant"],
+                                      "outcome": o2.outcome, "status": int(o2.status), "changed": bool(o2.changed), "seen": seen2, "mode": mode2, "fuser": fuser2})
+                        meta.append({"route": f"{m} {p}", "handler": h, "url": url2, "rep": f"term:{ti}", "changed_tables": o2.changed_tables,
+                                     "exception": (type(o2.exc).__name__ + ": " + str(o2.exc)[:160]) if o2.exc is not None else None,
+                                     "location": str(o2.location) if o2.location else None, "unsupported_sql": bool(o2.unsupported)})
     # identical observation tuples (same request, same answer on different routes) are judged once
     uniq, index = [], {}
     for c in cases:
